@@ -297,34 +297,10 @@ def section() -> list[str]:
     if not any(c.endswith(".parents)") and ".update(" in c for c in calls):
         raise ExtractError("_collect_all_paths_known_to_pytask: parents of the known files are no longer added")
 
-    # --- _yield_paths_from_task: task module, PPathNode leaves of depends_on / produces (, provisional nodes)
-    yp = extract._func(clean, "_yield_paths_from_task")
-    body = [s for s in yp.body if not (isinstance(s, ast.Expr) and isinstance(s.value, ast.Constant))]
-    if (len(body) != 2 or not isinstance(body[0], ast.If) or ast.unparse(body[0].test) != "isinstance(task, PTaskWithPath)"
-            or [ast.unparse(x) for x in body[0].body] != ["yield task.path"] or body[0].orelse):
-        raise ExtractError("_yield_paths_from_task: the task module is no longer yielded as `if isinstance(task, PTaskWithPath): yield task.path`")
-    loop = body[1]
-    if not (isinstance(loop, ast.For) and ast.unparse(loop.target) == "attribute" and isinstance(loop.iter, ast.Tuple)
-            and all(isinstance(e, ast.Constant) and isinstance(e.value, str) for e in loop.iter.elts)
-            and len(loop.body) == 1 and isinstance(loop.body[0], ast.For) and not loop.orelse
-            and ast.unparse(loop.body[0].target) == "node"
-            and ast.unparse(loop.body[0].iter) == "tree_leaves(getattr(task, attribute))"
-            and len(loop.body[0].body) == 1 and isinstance(loop.body[0].body[0], ast.If)):
-        raise ExtractError("_yield_paths_from_task: loop over the attributes / tree leaves not recognised")
-    task_attrs = [e.value for e in loop.iter.elts]
-    if sorted(task_attrs) != ["depends_on", "produces"]:
-        raise ExtractError(f"_yield_paths_from_task: attributes are {task_attrs}, expected depends_on and produces")
-    test = loop.body[0].body[0]
-    if ast.unparse(test.test) != "isinstance(node, PPathNode)" or [ast.unparse(x) for x in test.body] != ["yield node.path"]:
-        raise ExtractError("_yield_paths_from_task: `if isinstance(node, PPathNode): yield node.path` not recognised")
-    if not test.orelse:
-        knows_provisional = False
-    elif (len(test.orelse) == 1 and isinstance(test.orelse[0], ast.If) and not test.orelse[0].orelse
-          and ast.unparse(test.orelse[0].test) in ("isinstance(node, DirectoryNode)", "isinstance(node, PProvisionalNode)")
-          and [ast.unparse(x) for x in test.orelse[0].body] == ["yield from node.collect()"]):
-        knows_provisional = True
-    else:
-        raise ExtractError("_yield_paths_from_task: unrecognised branch besides PPathNode")
+    # --- control structure of from_path / listing / known paths / command loop (namespace Cln); the arms of
+    #     _yield_paths_from_task decide whether provisional nodes are resolved
+    import extract_cleangen
+    gen, knows_provisional = extract_cleangen.gen_lines(clean, modes)
 
     strs = lambda xs: lean_list(xs, lean_str)  # noqa: E731
     return [
@@ -345,7 +321,7 @@ def section() -> list[str]:
         f"def gitKnownExtra : List String := {strs(extra)}",
         f"def cleanKnowsProvisional : Bool := {lean_bool(knows_provisional)}",
         "",
-    ]
+    ] + gen
 
 
 if __name__ == "__main__":
